@@ -66,6 +66,9 @@ Lemma has_prefix_slash_cons d : has_prefix (slash :: d) [slash] = true.
 Proof. cbn. now rewrite byte_eqb_refl, has_prefix_nil. Qed.
 Local Hint Resolve has_prefix_slash_cons has_prefix_nil : core.
 
+Lemma has_prefix_refl s : has_prefix s s = true.
+Proof. rewrite <- (app_nil_r s) at 1. apply has_prefix_app. Qed.
+
 Lemma skipn_app_len {A} : forall (p r : list A), skipn (length p) (p ++ r) = r.
 Proof. induction p; cbn; auto. Qed.
 
@@ -439,7 +442,7 @@ Section Forward.
     unfold request_uri, escaped_path. cbn [u_path u_raw_path u_force_query u_raw_query].
     rewrite (path_roundtrip _ _ _ Hsp Hsl Hv).
     destruct (slash_head _ Hsl) as [r Hr]. rewrite Hr at 1. cbn [is_empty].
-    rewrite Ht at 3. unfold query_part. reflexivity.
+    symmetry. exact Ht.
   Qed.
 
   (** Stripping (repaired tree): the client spelled the prefix literally. *)
@@ -455,9 +458,9 @@ Section Forward.
     { rewrite Ht. now apply query_suffix_of_app. }
     rewrite Hqs. clear Hqs.
     unfold literal_prefix in Hlit. apply andb_true_iff in Hlit as [Hpre Hbound].
-    apply has_prefix_split in Hpre. set (r := skipn (length pre) p) in *.
+    apply has_prefix_split in Hpre. remember (skipn (length pre) p) as r eqn:Hrdef. clear Hrdef.
     assert (Hr : r = [] \/ exists r', r = slash :: r').
-    { destruct r as [|c r']; auto. right. apply byte_eqb_eq in Hbound. subst. eauto. }
+    { destruct r as [|c r']; auto. right. apply byte_eqb_eq in Hbound. subst c. eauto. }
     clear Hbound.
     pose proof Hsp as Hinv. apply set_path_inv in Hinv as (Hu & Hcases).
     rewrite Hpre in Hu. rewrite unescape_nopct_app in Hu by auto.
@@ -472,9 +475,9 @@ Section Forward.
     assert (Hd : has_prefix (pre ++ dr) [slash] = true).
     { rewrite Hpre in Hp'. destruct pre as [|c pre'].
       - cbn in Hp'. cbn. destruct Hr as [Hr | [r' Hr]]; rewrite Hr in Hp'; [discriminate|].
-        destruct Hdr as [-> | [d' ->]]; [|reflexivity]. rewrite Hr in Hur.
+        destruct Hdr as [-> | [d' ->]]; [|cbn [app]; auto]. rewrite Hr in Hur.
         destruct (unescape_slash_head _ _ Hur) as [? ?]. discriminate.
-      - cbn in Hp'. inversion Hp'. reflexivity. }
+      - cbn in Hp'. inversion Hp'. cbn [app]. auto. }
     assert (Hvr : valid_encoded r = true).
     { rewrite Hpre, valid_encoded_app in Hv. now apply andb_true_iff in Hv as [_ Hv]. }
     assert (Htrim : trim_prefix (pre ++ dr) pre = dr).
@@ -506,10 +509,10 @@ Section Forward.
       replace (is_empty p) with false by (now rewrite Hp').
       rewrite Hep, Htrim.
       assert (Hcut : cut_prefix p pre = Some r).
-      { unfold cut_prefix. rewrite Hpre at 1. now rewrite has_prefix_app. }
+      { unfold cut_prefix. rewrite Hpre. now rewrite has_prefix_app, skipn_app_len. }
       rewrite Hcut.
       assert (Hb : is_empty r || has_prefix r [slash] = true).
-      { destruct Hr as [-> | [r' ->]]; reflexivity. }
+      { destruct Hr as [-> | [r' ->]]; [reflexivity|]. cbn [is_empty orb]. auto. }
       rewrite Hb.
       unfold request_uri, escaped_path. cbn [u_path u_raw_path u_force_query u_raw_query].
       assert (Her : escaped_path_of dr r = r).
@@ -528,7 +531,7 @@ Section Forward.
     destruct (parse_accept_inv _ _ Hparse Hslash) as (d & raw & f & q & -> & Hsp & Ht & Hsl & Hq & Hc).
     fold p in Hsp, Ht, Hsl, Hq. cbn [u_path].
     unfold literal_prefix in Hlit. apply andb_true_iff in Hlit as [Hpre Hbound].
-    apply has_prefix_split in Hpre. set (r := skipn (length pre) p) in *.
+    apply has_prefix_split in Hpre. remember (skipn (length pre) p) as r eqn:Hrdef. clear Hrdef.
     apply set_path_inv in Hsp as (Hu & _).
     rewrite Hpre in Hu. rewrite unescape_nopct_app in Hu by auto.
     destruct (unescape r) as [dr|] eqn:Hur; [|discriminate]. inversion Hu; subst d; clear Hu.
@@ -539,8 +542,7 @@ Section Forward.
       - change (pre ++ slash :: x) with (pre ++ [slash] ++ x). rewrite app_assoc. apply has_prefix_app. }
     destruct r as [|c r'].
     - cbn in Hur. inversion Hur. subst dr. rewrite app_nil_r.
-      unfold ensure_trailing_slash. destruct (has_suffix pre [slash]); apply has_prefix_app || idtac.
-      rewrite <- (app_nil_r (pre ++ [slash])). apply has_prefix_app.
+      apply has_prefix_refl.
     - apply byte_eqb_eq in Hbound. subst c.
       destruct (unescape_slash_head _ _ Hur) as [d' ->].
       unfold ensure_trailing_slash at 1.
@@ -675,7 +677,7 @@ Qed.
 Lemma hvalues_hdel_all_notin k : forall ks h, mem_str k ks = false -> hvalues k (hdel_all ks h) = hvalues k h.
 Proof.
   induction ks as [|k0 ks IH]; intros h H; [reflexivity|].
-  rewrite mem_byte_cons in H. apply orb_false_iff in H as [H1 H2]. cbn. rewrite IH by auto. now apply hvalues_hdel_other.
+  cbn [mem_str] in H. apply orb_false_iff in H as [H1 H2]. cbn. rewrite IH by auto. now apply hvalues_hdel_other.
 Qed.
 
 Lemma hvalues_hdel_all_in k : forall ks h, mem_str k ks = true -> hvalues k (hdel_all ks h) = [].
